@@ -125,7 +125,7 @@ def run_check(mod, tier, seed, replay=None):
     if hasattr(mod, "n_histories"):
         n_hist = min(n_hist, mod.n_histories(tier))
     budget = cfg.get("budget_s", 1e9)
-    batch = cfg.get("batch", 64)
+    batch = cfg.get("batch", 32)
     agg = {
         "evaluations": 0, "nontrivial": set(), "clauses": {}, "faults": {}, "probes": {},
         "sim_months": 0, "aborts": 0, "histories": 0, "harness": [], "samples": [],
